@@ -233,6 +233,7 @@ def run(ctx):
             ("random", ["c05-random", f"seed={seed}", "n=1200", "words=10"]),
             ("corpus", ["c05-corpus", f"dir={corpus_dir()}", f"seed={seed}", "pairs=25", "walks=25", "batch=60"]),
             ("redirect", ["c05-redirect", f"seed={seed}", "n=120"]),
+            ("text", ["c05-text", f"seed={seed}", "fonts=80"]),
             ("convert", ["c05-convert", f"dir={corpus_dir()}", f"seed={seed}", "pairs=15", "walks=20", "batch=60"]),
         ]
     else:
@@ -243,6 +244,7 @@ def run(ctx):
             ("random", ["c05-random", f"seed={seed}", "n=10000", "words=12"]),
             ("corpus", ["c05-corpus", f"dir={corpus_dir()}", f"seed={seed}", "pairs=500", "walks=500", "batch=100"]),
             ("redirect", ["c05-redirect", f"seed={seed}", "n=1500"]),
+            ("text", ["c05-text", f"seed={seed}", "fonts=2500"]),
             ("convert", ["c05-convert", f"dir={corpus_dir()}", f"seed={seed}", "pairs=300", "walks=300", "batch=100"]),
         ]
     for name, cmd in plan:
@@ -280,8 +282,8 @@ def run(ctx):
         jobs.append((f"neg:{b}", neg("MC_LigKern", f"NEG_LigKern_{b}.cfg", b)))
     for b in NEGS_COMPILE:
         jobs.append((f"neg:{b}", neg("LigKernCompile", f"NEG_LigKernCompile_{b}.cfg", b)))
-    per_chunk = ({"small": 800, "random": 400, "corpus": 17, "redirect": 200, "convert": 11} if q else
-                 {"small": 2500, "random": 1500, "corpus": 40, "redirect": 800, "convert": 30})
+    per_chunk = ({"small": 800, "random": 400, "corpus": 17, "redirect": 200, "convert": 11, "text": 20} if q else
+                 {"small": 2500, "random": 1500, "corpus": 40, "redirect": 800, "convert": 30, "text": 200})
     for b in batches:
         size = per_chunk[re.sub(r"\d+$", "", b.name)]
         jobs += validation_jobs(ctx, b, len(b.lines) // size + 1)
